@@ -91,6 +91,11 @@ class SimBoard(Device):
         self.nick = spec.get('nick', '')
         self.style = spec.get('style', 'mac')
         self.err_ok = spec.get('err_ok', False)    # legacy: error line followed by OK?
+        # legacy line endings: 'crlf' (every line CR LF), 'lf' (LF only, e.g. behind a bridge that
+        # translates), 'nlcr' (data lines end LF CR as several legacy replies are documented to; a
+        # line-oriented reader then sees the CR at the front of the following line)
+        self.eol = spec.get('eol', 'crlf')
+        self._carry_cr = False
         self.usb_name = self.nick
         self.bootloader = False
         self.power_on()
@@ -129,6 +134,7 @@ class SimBoard(Device):
         self.usb_name = self.nick
         self.bootloader = False
         self.buf = bytearray()
+        self._carry_cr = False
 
     def state(self):
         return {'syntax': self.syntax, 'ram': list(self.ram), 'en1': self.en1, 'en2': self.en2,
@@ -194,6 +200,29 @@ class SimBoard(Device):
         head = t.split(',', 1)[0].strip()
         return head.upper(), t.split(',')[1:]
 
+    def handle(self, text, op_id, err=None):
+        self.reqno += 1
+        lines = self._eol(self.reply(text, err))
+        self.log.append([self.reqno, op_id, text, [ln.decode('latin-1') for ln in lines]])
+        return lines
+
+    def _eol(self, lines):
+        if self.syntax != 'legacy' or self.eol == 'crlf':
+            return lines
+        out = []
+        for ln in lines:
+            body = ln[:-2] if ln.endswith(b'\r\n') else ln.rstrip(b'\n')
+            head = b'\r' if self._carry_cr else b''
+            self._carry_cr = False
+            if self.eol == 'lf':
+                out.append(body + b'\n')
+            elif body == b'OK' or b'Err:' in body:
+                out.append(head + body + b'\r\n')
+            else:
+                out.append(head + body + b'\n')
+                self._carry_cr = True
+        return out
+
     def reply(self, text, err):
         if self.bootloader:
             return []
@@ -212,7 +241,7 @@ class SimBoard(Device):
 
     # -- identification ---------------------------------------------------------
     def cmd_V(self, name, parts):
-        s = 'EBBv13_and_above EB Firmware Version %d.%d.%d' % self.fw
+        s = 'EBBv13_and_above EB Firmware Version ' + '.'.join('%d' % c for c in self.fw)
         s = self.spec.get('version_text', s)
         return self._fmt('V', s, False)
 
